@@ -59,9 +59,10 @@ def event_times(desc):
     return ts
 
 
-def expected_invocations(desc, T):
-    """Periods in which the scheduler must run (C05 model)."""
-    mr = desc["scheduler"].get("mr") if desc["scheduler"]["kind"] == "scripted" else (desc["scheduler"].get("mr") or 1)
+def expected_invocations(desc, T, default_mr=1):
+    """Periods in which the scheduler must run (C05 model).  `default_mr`: the recompute interval a library algorithm carries when
+    the descriptor sets none (read from the live scheduler object by the caller)."""
+    mr = desc["scheduler"].get("mr") if desc["scheduler"]["kind"] == "scripted" else (desc["scheduler"].get("mr") or default_mr)
     evt = event_times(desc)
     out, last = [], None
     for t in range(T):
